@@ -60,14 +60,16 @@ class BuilderSystem:
             if not s.endswith(self.ending) or self.ending in s[: -len(self.ending)]:
                 problems.append(("unterminated-line", f"writer chunk is not exactly one line: {s!r}"))
             block = s[: -len(self.ending)] if s.endswith(self.ending) else s
-            words = lex.executable_words(block, self.style)
-            bad = [w for w in words if w[0] == "?"]
-            if bad:
-                problems.append(("unparseable-word", f"line {block!r} has unparseable token(s) {bad}"))
-                words = [w for w in words if w[0] != "?"]
-            st.last_lines.append(block)
-            st.last_infos.append(st.machine.feed_words(words))
-            st.last_events += st.machine.events
+            # a controller ends a block at CR LF, LF or CR: whatever follows a stray line break inside the chunk is executed
+            for piece in lex.LINE_BREAK_RE.split(block):
+                words = lex.executable_words(piece, self.style)
+                bad = [w for w in words if w[0] == "?"]
+                if bad:
+                    problems.append(("unparseable-word", f"line {piece!r} has unparseable token(s) {bad}"))
+                    words = [w for w in words if w[0] != "?"]
+                st.last_lines.append(piece)
+                st.last_infos.append(st.machine.feed_words(words))
+                st.last_events += st.machine.events
 
     def apply(self, st, op):
         """Real call with context bookkeeping. Returns (exc, chunks)."""
